@@ -213,3 +213,21 @@ PROPS["C14"] = {
                    "(compatible_totals_witness, connect_client_superset_witness, connect_sound_false) - both are recorded "
                    "known findings."),
 }
+
+PROPS["C03"] = {
+    "lean_modules": ["Stef.Props.C03"],
+    "harness": [{"bin": "h_prim", "args": ["alloc"]}],
+    "rule": ("cases = random request sequences on the real pkg.AllocSizeChecker (sizes around RecordAllocLimit, 2^31, 2^32, "
+             "2^62, 2^63, MaxUint; products that overflow) replayed on the Lean model; hostile streams: see the h_codec "
+             "`hostile` mode and h_otlp when registered; non-trivial = at least one request was refused; distinct by draw"),
+    "trusted_base": COMMON_TB + [
+        "Stef/Alloc.lean and Stef/Reader.lean are hand transcriptions (allocsizechecker.go; basereader.go, frame.go, "
+        "recordbuf.go at frame level) tied by correspondence",
+        "Go memory safety, stack depth and the decoder bodies are NOT modelled: covered only by hostile-input runs",
+    ],
+    "assumptions": ["bits.Add / bits.Mul as 64-bit carry / high-word arithmetic"],
+    "level_text": ("PARTIAL. Theorems for all inputs on the modelled parts: frame_load_consumes_input (progress: no spinning), "
+                   "frame_load_bounded (<= FrameSizeLimit whatever the size fields say), alloc_bound (granted requests of a "
+                   "record sum to <= RecordAllocLimit), alloc_counter_saturates. Panics / over-allocation inside decoders "
+                   "and converters are searched for by hostile-input runs against the real code, not proved absent."),
+}
